@@ -41,7 +41,7 @@ ASSUMPTIONS = [
     "operations that do not terminate on partial lists (reverse/2, nth0/3 enumeration, member/2 enumeration …) are generated for non-variable tails or wrapped in once/1",
 ]
 
-IMPL_ENV = {"SV_TIMEOUT_MS": "60000"}
+IMPL_ENV = {"SV_TIMEOUT_MS": "8000"}
 
 USE = ("use_module(library(iso_ext)),use_module(library(lists)),use_module(library(charsio)),"
        "use_module(library(format)),use_module(library(dcgs)),use_module(library(si)),use_module(library(error)).")
@@ -399,7 +399,7 @@ OPS = [
     ("foldl", "proper", "foldl([C,A0,A1]>>(A1 = [C|A0]), {S1}, [], {R})"),
     ("list_to_set", "proper", "list_to_set({S1}, {R})"),
     ("sum_codes", "proper", "findall(C, (member(X, {S1}), char_code(X, C)), {R})"),
-    ("dcg_word", "", "(phrase(c20w(W), {S1}, Rest) -> {R} = y(W,Rest) ; {R} = n)"),
+    ("dcg_word", "proper", "(phrase(c20w(W), {S1}, Rest) -> {R} = y(W,Rest) ; {R} = n)"),
     ("dcg_seq", "proper short", "findall(A-B, phrase((seq(A),seq(B)), {S1}), {R})"),
     # --- atoms, numbers
     ("atom_chars", "", "atom_chars(A, {S1}), atom_length(A, N), {R} = A-N"),
@@ -494,8 +494,8 @@ def render_variant(item, vid, rec1, rec2, seed):
         goals.reverse()
     op = subst(tpl, {"S1": "S1", "S2": "S2", "T1": item["t1"], "T2": item["t2"] or "[]", "R": "R",
                      "P": "c20d_%s" % vid})
-    body = ", ".join(goals + [op, "obs_c20(R, A)"])
-    q = "catch(findall(A, (%s), As), error(E,_), (obs_c20(err(E), A1), As = [A1]))." % body
+    body = ", ".join(goals + [op, "obs_c20(R, Obs_)"])
+    q = "findall(Obs_, catch((%s), error(Err_,_), obs_c20(err(Err_), Obs_)), As)." % body
     progs = [e for e in extra if e]
     return progs, q
 
